@@ -217,3 +217,39 @@ pub(crate) fn c16_k3_ctor_iter() {
     let b: SharedBytes = data[..len].iter().copied().collect();
     assert!(b.len() == len && (i >= len || b[i] == data[i]), "C16 FromIterator yields exactly the iterator's bytes");
 }
+
+// ---- the adopted Vec buffer must be handed back with the capacity it was allocated with ---------------------------------
+#[cfg(kani)]
+static mut ADOPTED: (*mut u8, usize) = (std::ptr::null_mut(), 0);
+#[cfg(kani)]
+static mut ADOPTED_FREES: u8 = 0;
+#[cfg(kani)]
+unsafe fn global_deallocate_rec(_this: &alloc::Global, ptr: NonNull<u8>, layout: alloc::Layout) {
+    if ptr.as_ptr() == ADOPTED.0 {
+        ADOPTED_FREES += 1;
+        assert!(layout.size() == ADOPTED.1 && layout.align() == 1, "C16 the adopted Vec buffer is released with the capacity it was allocated with");
+    }
+    if layout.size() != 0 {
+        alloc::System.dealloc(ptr.as_ptr(), layout);
+    }
+}
+#[cfg(kani)]
+#[kani::proof]
+#[kani::unwind(8)]
+#[kani::stub(<std::alloc::Global as std::alloc::Allocator>::deallocate, global_deallocate_rec)]
+pub(crate) fn c16_k2_from_vec_buffer_layout() {
+    let len = (nd::<u8>() % 3) as usize;
+    let mut v: Vec<u8> = Vec::with_capacity(len + 2);
+    let mut k = 0;
+    while k < len {
+        v.push(nd());
+        k += 1;
+    }
+    unsafe { ADOPTED = (v.as_mut_ptr(), v.capacity()) };
+    let b = SharedBytes::from_vec(v);
+    let c = b.clone();
+    drop(b);
+    assert!(unsafe { ADOPTED_FREES } == 0, "C16 the buffer outlives every clone but the last");
+    drop(c);
+    assert!(unsafe { ADOPTED_FREES } == 1, "C16 the adopted buffer is released exactly once, after the last clone (also when it is empty but has capacity)");
+}
